@@ -14,9 +14,11 @@ LEVEL_TEXT = ('Lean 4 theorems at ℂ/ℝ, stated over the C02 propagation model
               'the integer frequency coordinate; for any number of fields on the wavefront canvas, any output extent / mask box / '
               'propagation shape and any set of output samples inside one period (α = 1/K, 1/L, K, L ≥ canvas, K ≠ L allowed) the summed '
               'intensity is ≤ Σ|total input field|², with equality over the whole period; nested sample sets are monotone; intensity ≥ 0; a '
-              'tilted field keeps its energy over the displaced period; fftshift∘fft2(ortho)∘ifftshift equals the centred unitary dft2 for '
-              'even and odd sizes (so the FFT path conserves energy); normalize_power yields power p. The same models run at doubles '
-              'against propagate_dft / propagate_fft / Wavefront.intensity / insert / normalize_power on every check.')
+              'tilted field, or several fields sharing one tilt, keep their energy over the displaced period; fftshift∘fft2(ortho)∘ifftshift equals the centred unitary dft2 for '
+              'even and odd sizes, and — composed with C09 fft_eq_propagate_dft — the whole FFT propagator (grid shape, padding or scratch, crop; any number of '
+              'fields, isotropic sampling) returns at most the input power and exactly it on the full grid; normalize_power (factor regenerated from util.py) '
+              'yields power p at every input scale. The propagate_dft correspondence runs the C02 model itself (Gen.dftWindow, Gen.maskShape/Shift, dftAlpha) '
+              'at doubles; propagate_fft and normalize_power run Model/Energy.lean.')
 LEVEL_NOTE = ('Trusted, stated plainly: the fft2 contract `fft2ortho` is written with the model\'s own dft2 (offset ⌊n/2⌋, shift −⌊n/2⌋ '
               'cancelling the centring) and proved equal to the textbook (1/√(mn)) Σ x[a,b] e^{−2πi(ak/m+bl/n)}; that NumPy\'s '
               'fft2(norm="ortho") computes that sum, and that fftshift/ifftshift are the stated index maps, is assumed and only observed '
@@ -24,8 +26,8 @@ LEVEL_NOTE = ('Trusted, stated plainly: the fft2 contract `fft2ortho` is written
               'restated; differently tilted overlapping fields are not covered by an energy theorem (their Σ|field|² is not the input '
               'power). np.dot/np.exp as in C01; floating-point rounding is not modelled.')
 TECHNIQUE = 'Lean 4 proof (roots-of-unity orthogonality, Finset sums) over a generic executable model + differential correspondence'
-GEN = ['FourierWiring', 'Window', 'Extent']
-OPS = ['C01', 'C05']
+GEN = ['FourierWiring', 'Window', 'Extent', 'NormalizePower']
+OPS = ['C01', 'C05', 'C02']
 RULE = ('cases: wavefronts of shape 1..5 x 1..5 (one full field, or 2-3 sub-fields with offsets, possibly overlapping), complex '
         'Gaussian data, oversample 1..4, full period K x L = (shape·os) with K ≥ rows, L ≥ cols drawn independently per axis; '
         'propagate_dft on the full period, on a smaller centred window (shape), and on a window nested in it (smaller shape / '
@@ -37,10 +39,13 @@ TRUSTED = ['np.fft.fft2(norm="ortho") is the unitary DFT with origin at index 0;
            'np.dot / np.exp / np.abs / np.sum as written in the model; Wavefront.intensity merges coincident output fields (C06)']
 UNPROVEN = ['"images to total p" for a normalised pupil is the composition normalize_power_power ∘ propagate_dft_energy through Plane.multiply '
             '(C07: |exp(iφ)| = 1 on the mask), which is not composed here; it is evaluated by the oracle',
-            'energy for several fields carrying different tilts (interference between differently displaced transforms) has no theorem; '
-            'the generator gives overlapping fields a common tilt and checks disjoint ones by the oracle',
-            'Wavefront.insert(out, weight) = out + weight·intensity is evaluated by the oracle only']
-ASSUMPTIONS = ['commensurate sampling: 1/α is an integer number of samples per axis, at least the wavefront shape',
+            'energy for several fields carrying *different* tilts (interference between differently displaced transforms) has no theorem; '
+            'the generator gives overlapping fields a common tilt (theorem common_tilt_period_energy) and checks disjoint ones by the oracle',
+            'Wavefront.insert(out, weight) = out + weight·intensity is evaluated by the oracle only',
+            'propagate_fft_energy needs isotropic dx·du (C09: the FFT propagator has one wavelength for two grids otherwise — known finding D9); '
+            'the FFT correspondence model (fftPath on embedAll) is the hand model of Model/Energy.lean, not C09 propagateFft']
+ASSUMPTIONS = ['normalize_power on integer-dtype arrays: |a|² must fit the array dtype — np.abs(array)**2 is evaluated in that dtype, so e.g. a uint8 amplitude [[3,20],[17,11]] with power 2 returns power 5.34 and an int16 amplitude containing 300 returns NaN (reported as a finding candidate; not generated)',
+               'commensurate sampling: 1/α is an integer number of samples per axis, at least the wavefront shape',
                'sample sets lie inside one period; all fields lie on the wavefront canvas (Fits)']
 
 TOL = 1e-9
@@ -101,9 +106,15 @@ def _case(rng, kmax):
         # scope (C06/C07): a pupil whose support is one pixel is a one-element Field, which lentil treats as a broadcast
         # constant (and drops when off-centre); such pupils are not generated, the support always spans > 1 pixel or all of 1x1
         if np.count_nonzero(amp) < 2: amp = rng.uniform(0.1, 2.0, m * n)
+        if not cplx and rng.integers(0, 5) == 0:
+            # integer amplitudes whose squares fit their dtype (np.abs(array)**2 is evaluated in the array's own dtype: see ASSUMPTIONS)
+            c['amp_dtype'] = ['int16', 'int32', 'uint8'][int(rng.integers(0, 3))]
+            amp = np.minimum(np.round(amp * 6) + 1, 15 if c['amp_dtype'] == 'uint8' else 150)
+        if rng.integers(0, 6) == 0: c['default_power'] = True
         c.update({'amp': [float(x) for x in amp], 'amp_im': [float(x) for x in rng.normal(size=m * n)] if cplx else None,
                   'opd': [float(x) for x in rng.normal(size=m * n) * 1e-7], 'power': float(rng.uniform(0.1, 50)),
                   'via': 'fft' if rng.integers(0, 2) else 'dft'})
+        if c.get('default_power'): c['power'] = 1.0
         return c
     c['fields'] = _fields(rng, (m, n))
     if rng.integers(0, 4) == 0: c['ptype'] = 'image'                          # image -> pupil direction
@@ -139,8 +150,9 @@ def _case(rng, kmax):
         if 'tilt' in c and len(c['fields']) > 1 and min(S) * os_ < 2 * os_ + 8:
             pass
         if c.get('tilt', {}).get('kind') == 'common' and len(c['fields']) > 1:
-            # a displaced window may shrink to one sample: keep one field there (C06 scope, as above)
-            c['fields'] = c['fields'][:1]
+            # several fields sharing one tilt; only where a displaced window shrinks to a single sample is the wavefront reduced to
+            # one field (C06 scope, as above: Wavefront.intensity cannot merge fields on a one-pixel bounding box)
+            if any(b is not None and (b[1] - b[0]) * (b[3] - b[2]) == 1 for (_, _, b) in _boxes(c)): c['fields'] = c['fields'][:1]
     else:
         c['crop'] = _sub(rng, s) if rng.integers(0, 2) else None
         c['scratch'] = [int(rng.integers(0, 4)), int(rng.integers(0, 4))] if rng.integers(0, 3) == 0 else None
@@ -321,10 +333,12 @@ def impl(c):
     # normalize_power
     m, n = c['wshape']; p = c['phys']
     amp = np.array(c['amp']).reshape(m, n)
+    if c.get('amp_dtype'): amp = amp.astype(c['amp_dtype'])
+    npow = (lambda a: lentil.util.normalize_power(a)) if c.get('default_power') else (lambda a: lentil.util.normalize_power(a, c['power']))
     if c['amp_im'] is not None:
-        a = lentil.util.normalize_power(amp + 1j * np.array(c['amp_im']).reshape(m, n), c['power'])
+        a = npow(amp + 1j * np.array(c['amp_im']).reshape(m, n))
         return {'a': {'re': [float(x) for x in a.real.ravel()], 'im': [float(x) for x in a.imag.ravel()]}}
-    a = lentil.util.normalize_power(amp, c['power'])
+    a = npow(amp)
     pupil = lentil.Pupil(amplitude=a, opd=np.array(c['opd']).reshape(m, n), pixelscale=_dx(c), focal_length=p['z'])
     w = lentil.Wavefront(wavelength=p['wl']) * pupil
     if c['via'] == 'dft': out = lentil.propagate_dft(w, pixelscale=du, shape=tuple(c['full']), oversample=os_)
@@ -372,16 +386,36 @@ def _boxes(c):
         out.append(('tfull', Sb, _window(Sb, whole(Sb), (K, L), fix)))
     return out
 
+def _calls(c):
+    """the propagate_dft calls of a dft case: (name, shape, prop_shape, mask box or None) in detector pixels / canvas indices"""
+    out = [('full', c['full'], c['full'], None), ('w2', c['w2'], c['w2'], None)]
+    w1 = c['w1']
+    if w1['how'] == 'shape': out.append(('w1', w1['shape'], w1['shape'], None))
+    elif w1['how'] == 'prop_shape': out.append(('w1', c['w2'], w1['shape'], None))
+    else: out.append(('w1', c['w2'], c['w2'], w1['box']))
+    if c.get('tilt', {}).get('kind') == 'common':
+        mg = _margin(c); out.append(('tfull', [c['full'][0] + mg[0], c['full'][1] + mg[1]], c['full'], None))
+    return out
+
 def requests(c, io):
     if c.get('summary'): return []          # too large for the interpreted model: oracle only
     os_ = c['os']
     K, L = c['full'][0] * os_, c['full'][1] * os_
     if c['kind'] == 'dft':
-        al = [fbits(1.0 / K), fbits(1.0 / L)]
-        fs = [{**_fld_req(f), 'tilt': [fbits(sh[0]), fbits(sh[1])]} if sh != [0.0, 0.0] else _fld_req(f)
-              for f, sh in zip(c['fields'], _shifts(c))]
-        return [{'op': 'c05.window', 'fields': fs, 'alpha': al,
-                 'window': [b[1] - b[0], b[3] - b[2], b[0] - S[0] // 2, b[2] - S[1] // 2]} for (_, S, b) in _boxes(c) if b is not None]
+        # the C02 propagation model itself (Gen.dftWindow, Gen.maskShape/maskShift, dftAlpha): the window arithmetic is the
+        # regenerated kernel, not a restatement by this harness; only np.fix (truncation) is restated for the shift split
+        dx = _dx(c); du = _du(c); p = c['phys']
+        fs = []
+        for f, sh in zip(c['fields'], _shifts(c)):
+            fx = [int(np.fix(sh[0])), int(np.fix(sh[1]))]
+            fs.append({**_fld_req(f), 'fix': fx, 'sub': [fbits(sh[0] - fx[0]), fbits(sh[1] - fx[1])]})
+        reqs = []
+        for (_, shape, prop, box) in _calls(c):
+            r = {'op': 'c02.propagate_dft', 'fields': fs, 'dx': [fbits(dx[0]), fbits(dx[1])], 'du': [fbits(du[0]), fbits(du[1])],
+                 'wl': fbits(p['wl']), 'z': fbits(p['z']), 'os': os_, 'shape': list(shape), 'prop_shape': list(prop)}
+            if box is not None: r['mask'] = [box[0], box[1] - 1, box[2], box[3] - 1]
+            reqs.append(r)
+        return reqs
     if c['kind'] == 'fft':
         return [{'op': 'c05.fft', 'fields': [_fld_req(f) for f in c['fields']], 'fft_shape': [K, L]}]
     im = c['amp_im'] if c['amp_im'] is not None else [0.0] * len(c['amp'])
@@ -411,12 +445,11 @@ def compare(c, io, mo):
         if not m.get('ok'): return f"model refused: {m.get('err')}"
     if c['kind'] == 'dft':
         tol = TOL * _scale(c)
-        it = iter(mo)
-        for (name, S, b) in _boxes(c):
+        for (name, shape, _, _), m in zip(_calls(c), mo):
             got = _arr(io[name])
-            if got.shape != tuple(S): return f'{name}: intensity shape {got.shape}, expected {tuple(S)}'
-            want = np.zeros(S)
-            if b is not None: want[b[0]:b[1], b[2]:b[3]] = _marr(next(it)['I'])
+            cv = m['canvas']
+            want = (np.array([bitsf(x) for x in cv['re']]) ** 2 + np.array([bitsf(x) for x in cv['im']]) ** 2).reshape(cv['shape'])
+            if got.shape != want.shape: return f'{name}: intensity shape {got.shape}, model canvas {want.shape}'
             d = float(np.max(np.abs(got - want)))
             if not d <= tol: return f'{name}: max |impl - model| intensity = {d:.3e} > {tol:.1e}'
         return None
